@@ -75,8 +75,8 @@ func (m *joinMon) Hash() uint64 {
 		}
 		h = vrt.Mix(h, uint64(age))
 		if want(m.cfg, "C10") {
-			for _, a := range m.accAt[m.next:] {
-				h = vrt.Mix(h, uint64(now-a))
+			for i := m.next; i < len(m.accAt); i++ {
+				h = vrt.Mix(h, uint64(now-m.accAt[i]))
 			}
 		}
 	}
@@ -260,6 +260,8 @@ func (m *joinMon) onDeliver(w *vrt.World, ev *vrt.Event) {
 
 type joinAdapter struct {
 	out     <-chan []int
+	getOut  func() <-chan []int
+	obj     any
 	release func()
 	stop    func()
 	send    func(seg []int)
@@ -353,7 +355,7 @@ func newJoin(c Cfg, w *vrt.World) *explore.Instance {
 				newErr = err
 				return
 			}
-			ad = joinAdapter{out: d.Output(), release: d.Release, send: func(seg []int) { vrt.Send(in, seg[0]) }, closeIn: func() { vrt.Close(in) }, steal: func() bool { _, ok := vrt.Recv2(in); return ok }}
+			ad = joinAdapter{getOut: d.Output, obj: d, release: d.Release, send: func(seg []int) { vrt.Send(in, seg[0]) }, closeIn: func() { vrt.Close(in) }, steal: func() bool { _, ok := vrt.Recv2(in); return ok }}
 		case "unite2":
 			in := vrt.MakeChan[[]int](capIn)
 			m.in = vrt.NameChan[[]int](in, "in")
@@ -362,7 +364,7 @@ func newJoin(c Cfg, w *vrt.World) *explore.Instance {
 				newErr = err
 				return
 			}
-			ad = joinAdapter{out: d.Output(), release: d.Release, send: func(seg []int) { vrt.Send(in, seg) }, closeIn: func() { vrt.Close(in) }, steal: func() bool { _, ok := vrt.Recv2(in); return ok }}
+			ad = joinAdapter{getOut: d.Output, obj: d, release: d.Release, send: func(seg []int) { vrt.Send(in, seg) }, closeIn: func() { vrt.Close(in) }, steal: func() bool { _, ok := vrt.Recv2(in); return ok }}
 		case "join1":
 			in := vrt.MakeChan[int](capIn)
 			m.in = vrt.NameChan[int](in, "in")
@@ -382,11 +384,30 @@ func newJoin(c Cfg, w *vrt.World) *explore.Instance {
 				newErr = err
 				return
 			}
-			ad = joinAdapter{out: d.Output(), release: func() { vrt.Send(released, struct{}{}) }, stop: d.Stop, send: func(seg []int) { vrt.Send(in, seg[0]) }, closeIn: func() { vrt.Close(in) }, steal: func() bool { _, ok := vrt.Recv2(in); return ok }}
+			ad = joinAdapter{getOut: d.Output, obj: d, release: func() { vrt.Send(released, struct{}{}) }, stop: d.Stop, send: func(seg []int) { vrt.Send(in, seg[0]) }, closeIn: func() { vrt.Close(in) }, steal: func() bool { _, ok := vrt.Recv2(in); return ok }}
 		default:
 			panic("unknown join discipline " + c.Disc)
 		}
-		m.out = vrt.NameChan(ad.out, "out")
+		lazy := false
+		if c.LazyAcc {
+			// nobody has called Output() yet: the monitor learns the channel from the
+			// object; the consumer and an observer obtain it themselves, concurrently
+			m.out = vrt.PeekChan(ad.obj, "output", "out")
+			lazy = m.out != nil
+		}
+		fetch := func() {
+			o := ad.getOut()
+			if vrt.StateOf(o) != m.out {
+				m.f.fail("C03", "Output() returned a channel other than the one the discipline writes to")
+			}
+			ad.out = o
+		}
+		if lazy {
+			vrt.Spawn("observer", fetch)
+		} else {
+			ad.out = ad.getOut()
+			m.out = vrt.NameChan(ad.out, "out")
+		}
 		m.lastAt = w.Clock
 
 		// producer
@@ -483,6 +504,9 @@ func newJoin(c Cfg, w *vrt.World) *explore.Instance {
 		}
 		// consumer
 		vrt.Spawn("consumer", func() {
+			if lazy {
+				fetch()
+			}
 			for {
 				vrt.Mark(vrt.Mix(uint64(len(kept)), 0xc0))
 				if d := delays[vrt.Choose(len(delays))]; d > 0 {
@@ -550,7 +574,7 @@ func newJoin(c Cfg, w *vrt.World) *explore.Instance {
 				ad.stop()
 				m.stopReturned = true
 
-				if !vrt.ChanClosed(ad.out) {
+				if !m.out.Closed {
 					m.f.fail("C16", "join Stop() returned but the output channel is not closed")
 				}
 				m.stopped = true
